@@ -2647,7 +2647,12 @@ void Analyser::AnalyserImpl::analyseModel(const ModelPtr &model)
                     internalVariable->mIsExternal = true;
 
                     for (const auto &dependency : externalVariable->dependencies()) {
-                        internalVariable->mDependencies.push_back(Analyser::AnalyserImpl::internalVariable(dependency)->mVariable);
+                        // Ignore a dependency that no longer belongs to the
+                        // model (it was removed after it was declared).
+
+                        if (owningModel(dependency) == model) {
+                            internalVariable->mDependencies.push_back(Analyser::AnalyserImpl::internalVariable(dependency)->mVariable);
+                        }
                     }
                 }
             }
